@@ -186,8 +186,8 @@ where
             if len >= 253 {
                 return Err(PushError::LongName);
             }
-            self.head = Some(len);
             self._append_slice(&[0, ch])?;
+            self.head = Some(len);
         }
         Ok(())
     }
@@ -239,8 +239,14 @@ where
             if self.len() + slice.len() > 254 {
                 return Err(PushError::LongName);
             }
-            self.head = Some(self.len());
-            self._append_slice(&[0])?;
+            // Append the length octet and the content in one go so a
+            // full buffer leaves the builder as it was.
+            let len = self.len();
+            let mut buf = [0u8; Label::MAX_LEN + 1];
+            buf[1..=slice.len()].copy_from_slice(slice);
+            self._append_slice(&buf[..=slice.len()])?;
+            self.head = Some(len);
+            return Ok(());
         }
         self._append_slice(slice)?;
         Ok(())
@@ -360,8 +366,13 @@ where
             return Err(PushNameError::LongName);
         }
         for label in name.iter_labels() {
-            label
-                .compose(&mut self.builder)
+            // Append each label in one go so a full buffer never leaves
+            // half a label behind.
+            let mut buf = [0u8; Label::MAX_LEN + 1];
+            buf[0] = label.len() as u8;
+            buf[1..=label.len()].copy_from_slice(label.as_slice());
+            self.builder
+                .append_slice(&buf[..=label.len()])
                 .map_err(|_| PushNameError::ShortBuf)?;
         }
         Ok(())
